@@ -92,7 +92,7 @@ func MaxRecv() { maxRecv() }
 func maxRecv() {
 	scheme := []string{"tcp", "vipc"}[kit.ChooseFree(2)]
 	role := []string{"listener", "dialer"}[kit.ChooseFree(2)]
-	when := []string{"socket-before", "endpoint-before-start", "endpoint-after-start", "socket-after-start", "endpoint-options-map"}[kit.ChooseFree(5)]
+	when := []string{"socket-before", "endpoint-before-start", "endpoint-after-start", "socket-after-start", "endpoint-options-map", "socket-again-with-its-present-value"}[kit.ChooseFree(6)]
 	lift := kit.ChooseFree(2) == 1
 	// other options passed in the map the endpoint is created with (they have nothing to do with the limit)
 	extra := kit.ChooseFree(2) == 1
@@ -120,7 +120,15 @@ func maxRecv() {
 			kit.Failf("maxrecvsize-set:"+what, "%s: SetOption(MaxRecvSize,%d) via %s: %s", scheme, v, what, kit.ErrName(err))
 		}
 	}
-	if lift || when == "socket-before" || when == "endpoint-options-map" {
+	if when == "socket-again-with-its-present-value" {
+		// the socket holds the limit from the start; the endpoint is then given a value of its own;
+		// finally the socket is set to the value it already has: accepted, and - like every
+		// socket-level setting - passed on to its endpoints
+		if lift {
+			limit = 0
+		}
+		set(s, limit, "socket")
+	} else if lift || when == "socket-before" || when == "endpoint-options-map" {
 		// (with the map: the socket has another value, the one in the map is the endpoint's)
 		set(s, first, "socket")
 	}
@@ -189,6 +197,12 @@ func maxRecv() {
 		start()
 		kit.Quiesce()
 		set(s, limit, "socket")
+	case "socket-again-with-its-present-value":
+		start()
+		kit.Quiesce()
+		set(obj, 24, role)
+		set(s, limit, "socket")
+		kit.Count("socket-set-to-its-present-value")
 	}
 	if when == "socket-before" && !lift {
 		// inherited from the socket
